@@ -20,10 +20,12 @@ structure ClsDef where
   fields : List (String × Json)
   subs : List (String × String × Bool)
   blocks : List (String × Json)
+  olists : List (String × String × Nat × Bool) := []     -- lists of objects: name, element class, length, random
 
 inductive Member
   | scalar (decl : Json)
   | sub (cls : String) (rand : Bool)
+  | olist (cls : String) (n : Nat) (rand : Bool)
 
 structure ScalarInfo where
   path : List String
@@ -45,7 +47,9 @@ def clsOf (classes : Json) (c : String) : Except String ClsDef := do
   let fields ← (← getA j "fields").mapM fun f => do pure ((← getS f "name"), f)
   let subs ← (← getA j "subs").mapM fun f => do pure ((← getS f "name"), (← getS f "cls"), (← getB f "rand"))
   let blocks ← (← getA j "blocks").mapM fun b => do pure ((← getS b "name"), (← b.getObjVal? "stmts"))
-  pure ⟨base, fields, subs, blocks⟩
+  let olists ← ((getA j "olists").toOption.getD []).mapM fun f => do
+    pure ((← getS f "name"), (← getS f "cls"), (← getN f "n"), (← getB f "rand"))
+  pure ⟨base, fields, subs, blocks, olists⟩
 
 /-- class chain, base first -/
 partial def chain (classes : Json) (c : String) (fuel : Nat) : Except String (List ClsDef) := do
@@ -58,7 +62,8 @@ partial def chain (classes : Json) (c : String) (fuel : Nat) : Except String (Li
 /-- members as `dir()` + `getattr` see them: most-derived definition per name, sorted by name -/
 def membersOf (ch : List ClsDef) : List (String × Member) :=
   let defs : List (String × Member) := ch.flatMap fun d =>
-    d.fields.map (fun f => (f.1, Member.scalar f.2)) ++ d.subs.map (fun s => (s.1, Member.sub s.2.1 s.2.2))
+    d.fields.map (fun f => (f.1, Member.scalar f.2)) ++ d.subs.map (fun s => (s.1, Member.sub s.2.1 s.2.2)) ++
+    d.olists.map (fun l => (l.1, Member.olist l.2.1 l.2.2.1 l.2.2.2))
   sortByName (mostDerived defs)
 
 def blocksOf (ch : List ClsDef) : List (String × Json) :=
@@ -86,6 +91,27 @@ partial def instantiate (classes : Json) (c : String) (path : List String) (decl
       let n ← instantiate classes cls (path ++ [name]) r randMode (fuel - 1)
       nodes := nodes ++ [n]
       kids := kids ++ [(name, true, cid)]
+    | .olist cls len r =>
+      -- `FieldArrayModel` of objects: a composite holding the `size` scalar (never random for a list of
+      -- fixed length) and the element objects `name[k]`, which take the list's declared randomness
+      let lid := (← get).objs.size
+      let lpath := path ++ [name]
+      modify fun st => { st with objs := st.objs.push ⟨lpath, "", []⟩ }
+      let szId := (← get).scalars.size
+      let szDecl := Json.mkObj [("name", Json.str "size"), ("w", jNat 32), ("s", Json.bool false), ("rand", Json.bool false),
+        ("val", jNat len), ("enums", Json.null)]
+      modify fun st => { st with scalars := st.scalars.push ⟨lpath ++ ["size"], szDecl, lid⟩ }
+      let mut lkids : List (String × Bool × Nat) := [("size", false, szId)]
+      let mut lnodes : List Node := [Node.scalar szId false false]
+      for k in List.range len do
+        let en := name ++ "[" ++ toString k ++ "]"
+        let eid := (← get).objs.size
+        let n ← instantiate classes cls (lpath ++ [en]) r randMode (fuel - 1)
+        lnodes := lnodes ++ [n]
+        lkids := lkids ++ [(en, true, eid)]
+      modify fun st => { st with objs := st.objs.modify lid fun o => { o with kids := lkids } }
+      nodes := nodes ++ [Node.obj lid r (randMode lpath r) (lnodes.foldr Node.seq Node.nil)]
+      kids := kids ++ [(name, true, lid)]
   modify fun st => { st with objs := st.objs.modify oid fun o => { o with kids := kids } }
   pure (Node.obj oid declRand (randMode path declRand) (nodes.foldr Node.seq Node.nil))
 
@@ -119,7 +145,9 @@ partial def resolveJson (inst : Inst) (o : Nat) (j : Json) : Except String Json 
     match j.getObjVal? "k", j.getObjVal? "path" with
     | .ok (Json.str "fld"), .ok p => do
         let ps ← (← p.getArr?).toList.mapM (·.getStr?)
-        pure (Json.mkObj [("k", Json.str "fld"), ("i", jNat (← resolve inst o ps))])
+        pure (Json.mkObj [("k", Json.str "fld"), ("i", jNat (← resolve inst o ps)),
+          -- reached through a list (an element by subscript, or the list's `size`): an expression object
+          ("viaIndex", Json.bool ((ps.any fun c => c.endsWith "]") || ps.getLast? == some "size"))])
     | _, _ =>
       match j with
       | Json.obj kvs => do
@@ -193,7 +221,7 @@ def handleCall (j : Json) : Except String Json := do
     match inst.objs[oid]? with
     | none => pure ()
     | some oi =>
-      let ch ← chain classes oi.cls 8
+      let ch ← if oi.cls == "" then pure [] else chain classes oi.cls 8     -- a list has no blocks of its own
       for (bn, stmts) in blocksOf ch do
         let en := enabled toggles oid bn
         blockLog := blockLog ++ [Json.mkObj [("obj", Json.str (pathStr oi.path)), ("block", Json.str bn),
